@@ -22,8 +22,11 @@ HDR = ('From Coq Require Import List Bool Arith.\nFrom PF Require Import models.
 
 
 def scenarios():
-    from fst.match import M, MBinOp, MCall, MList, MAttribute, MQSTAR, MTuple, MSubscript, MConstant, MUnaryOp, MBoolOp, MCompare, MIfExp
+    from fst.match import M, MBinOp, MCall, MList, MAttribute, MQSTAR, MTuple, MSubscript, MConstant, MUnaryOp, MBoolOp, MCompare, MIfExp, MAssign, MWith, MReturn, MExpr
     return [
+        ('assign-to-with-as', lambda: MAssign(value=M(v=...)), 'with __FST_v as res: pass'),
+        ('return-to-with-as', lambda: MReturn(value=M(v=...)), 'with __FST_v as out:\n    yield_ = out'),
+        ('expr-stmt-to-assign', lambda: MExpr(value=M(v=...)), 'kept = __FST_v'),
         ('swap-binop', lambda: MBinOp(left=M(l=...), right=M(r=...)), '__FST_r + __FST_l'),
         ('binop-to-call', lambda: MBinOp(left=M(l=...), right=M(r=...)), 'g(__FST_r, __FST_l)'),
         ('unwrap-call', lambda: MCall(func=M(fn=...)), '__FST_fn'),
@@ -57,7 +60,10 @@ class Ref:
 
     def __init__(self, root, pat, template, nested):
         self.root, self.pat, self.nested = root, pat, nested
-        self.template = ast.parse(template, mode='eval').body
+        try:
+            self.template = ast.parse(template, mode='eval').body
+        except SyntaxError:
+            self.template = ast.parse(template).body[0]
         self.n = 0
         self.spans = []
 
@@ -80,7 +86,14 @@ class Ref:
             self.n += 1
             if a.f.loc is not None:
                 pl = a.f.pars() if isinstance(a, ast.expr) else a.f.bloc
-                self.spans.append((min(pl[0], a.f.bloc.ln), max(pl[2], a.f.bloc.end_ln)))
+                lo, hi = min(pl[0], a.f.bloc.ln), max(pl[2], a.f.bloc.end_ln)
+                if isinstance(a, ast.stmt):
+                    # a replaced STATEMENT owns its leading comment block and trailing line comment (the documented `trivia` default of a statement put:
+                    # docs d06_slices "on a put the trivia specifies what to overwrite"); those are inside the substituted node for the purpose of C04
+                    lines = a.f.root._lines
+                    while lo > 0 and lines[lo - 1].lstrip().startswith('#'):
+                        lo -= 1
+                self.spans.append((lo, hi))
             return self.fill(self.template, a, m, top=True)
         return self.rebuild(a)
 
@@ -216,6 +229,40 @@ def stage_oracle(ctx: Ctx, progs):
             ctx.violation(f'sub-comment-lost|{name}', 'a comment outside every substituted node disappeared', {**rec, 'lost': list(lost)[:4], 'after': work.src})
 
 
+def stage_loop(ctx: Ctx):
+    """loop=N: per location at most N successive substitutions while the node still matches; the counter is per location"""
+    import fst
+    from fst.match import M, MList, MQSTAR
+    rng = ctx.rng
+    names = list('abcdefghpqrstuvwxyz')
+    for it in range(ctx.scale(60, 600)):
+        lists = [[rng.choice(names) + str(k) for k in range(rng.randrange(0, 7))] for _ in range(rng.randrange(1, 5))]
+        src = '(' + ', '.join('[' + ', '.join(l) + ']' for l in lists) + ',)'
+        loop = rng.choice([1, 2, 3, 5, True, 0])
+        back = rng.random() < 0.3
+        root = fst.FST(src, 'exec')
+        pat = MList(elts=[M(first=...), M(second=...), MQSTAR(rest=...)])
+        try:
+            _, n_unique, n_total = root.subn(pat, '[__FST_first + __FST_second, __FST_rest]', loop=loop, back=back)
+        except Exception as e:
+            ctx.violation(f'sub-raise|loop|{type(e).__name__}', 'sub(loop=N) raised', {'src': src, 'loop': loop, 'error': repr(e)[:300]})
+            continue
+        ctx.tick(('loop', src, loop, back), 'sub:loop')
+        lim = 10 ** 9 if loop is True or loop == 0 else loop
+        exp_lists, total, unique = [], 0, 0
+        for l in lists:
+            steps = min(lim, max(0, len(l) - 1))
+            total += steps
+            unique += steps > 0
+            exp_lists.append(([' + '.join(l[:steps + 1])] + l[steps + 1:]) if steps else l)
+        want_src = '(' + ', '.join('[' + ', '.join(l) + ']' for l in exp_lists) + ',)'
+        d = cmp_ast(root.a, ast.parse(want_src), positions=False) or reparse_diffs(root)
+        if d:
+            ctx.violation('sub-struct|loop', 'sub(loop=N) result differs from N successive substitutions per location', {'src': src, 'loop': loop, 'back': back, 'after': root.src, 'expected': want_src, 'diffs': d})
+        elif (n_unique, n_total) != (unique, total):
+            ctx.violation('sub-count|loop', 'sub(loop=N) counts differ from the substitutions performed', {'src': src, 'loop': loop, 'reported': [n_unique, n_total], 'expected': [unique, total]})
+
+
 # ---- correspondence with models/Subst.v -----------------------------------------------------------------------------
 def enc_tree(a, labels):
     key = (type(a).__name__,) + tuple((f, repr(v)) for f, v in ast.iter_fields(a) if not isinstance(v, (ast.AST, list)) and f not in ('kind', 'type_comment'))
@@ -282,6 +329,7 @@ def run(ctx: Ctx):
         ctx.build_props()
     progs = corpus(ctx.rng, gen=ctx.scale(20, 150))
     run_guarded(ctx, stage_oracle, progs)
+    run_guarded(ctx, stage_loop)
     run_guarded(ctx, stage_corr, progs)
 
 
